@@ -1,3 +1,13 @@
 //! Safe-Rust verification hooks for this module (accessors/wrappers only; no logic).
 #![allow(unused_imports, dead_code)]
 use super::*;
+
+// ---------------------------------------------------------------- C03 (np_algo_h)
+/// Thin wrapper around the private `select`.
+pub fn select_hook(
+    synchronization_config: &SynchronizationConfig,
+    algo_config: &AlgorithmConfig,
+    candidates: &super::super::verif_hooks::SnapVecH,
+) -> super::super::verif_hooks::SnapVecH {
+    super::super::verif_hooks::SnapVecH(select(synchronization_config, algo_config, &candidates.0))
+}
